@@ -313,6 +313,14 @@ func c38Init() error {
 	return nil
 }
 
+// string values that need care when they are written into YAML
+func c38Special(r *rand.Rand) string {
+	specials := []string{`back\\slash`, `C:\\dir\\name`, `say "hi"`, `it's`, `both " and '`, `#hash first`, `a #comment`, `key: value`, `colon:`,
+		` leading space`, `trailing space `, "line1\nline2", "tab\there", `{brace}`, `[bracket]`, `*star`, `&amp`, `!bang`, `%percent`, `@at`, "`backtick`",
+		`~tilde`, `-dash`, `? q`, `| pipe`, `> gt`, `end\\`, `"quoted"`, `'single'`, `\\"mix'`}
+	return specials[r.Intn(len(specials))] + strconv.Itoa(r.Intn(9))
+}
+
 func c38Clamp(f c38Field, v float64) float64 {
 	if f.hasMax && v > f.max {
 		v = f.max
@@ -423,6 +431,9 @@ func c38GenValue(r *rand.Rand, f c38Field, class string) (string, bool) {
 		case "D":
 			return q(f.mdef), true
 		}
+		if r.Intn(100) < 45 {
+			return q(c38Special(r)), true
+		}
 		return q(fmt.Sprintf("val%d", r.Intn(90))), true
 	case "stringarray":
 		if class == "Z" {
@@ -437,7 +448,11 @@ func c38GenValue(r *rand.Rand, f c38Field, class string) (string, bool) {
 			case "url":
 				es = append(es, q(fmt.Sprintf("http://peer%d.example.com:8081", r.Intn(9))))
 			default:
-				es = append(es, q(fmt.Sprintf("item%d", r.Intn(90))))
+				if f.elem != "" && r.Intn(100) < 30 {
+					es = append(es, q(c38Special(r)))
+				} else {
+					es = append(es, q(fmt.Sprintf("item%d", r.Intn(90))))
+				}
 			}
 		}
 		return "[" + strings.Join(es, ", ") + "]", true
